@@ -423,6 +423,46 @@ static void amap_case(uint64_t idx, void *vctx)
     if (!vf_in_confirm) vf_outcome(h);
 }
 
+/* ---------------- requests wider than the library's on-stack scanline buffers ----------------
+ * The scanline code works through fixed-size stack buffers (256 pixels for a destination's alpha map, 8192 * 3 bytes for the general
+ * path's three scanlines): one-row images whose storage ends (or starts) at an inaccessible page, in every role, with widths on both sides
+ * of one, two, four and eight such buffers, so that a chunk loop that fetches a full chunk for the tail touches the page. */
+static void wide_row_case(uint64_t idx, void *vctx)
+{
+    (void)vctx;
+    static const int WD[10] = { 255, 256, 257, 300, 511, 513, 769, 1025, 2049, 2731 };
+    static const pixman_format_code_t fm[4] = { PIXMAN_a8r8g8b8, PIXMAN_r5g6b5, PIXMAN_a8, PIXMAN_a2r10g10b10 };
+    static const pixman_format_code_t afm[3] = { PIXMAN_a8, PIXMAN_a1, PIXMAN_a8r8g8b8 };
+    int dims[6] = { 10, 4, 4, 3, 2, 2 }, d[6];
+    vf_decode(idx, dims, 6, d);
+    int W = WD[d[0]], role = d[1], H = d[5] ? 2 : 1, place = d[4];
+    /* role 0: destination with an alpha map; 1: source with an alpha map; 2: plain source and destination; 3: the image as mask of a solid */
+    gimg_t a = make_guarded(fm[d[2]], W, H, d[5] ? 2 : 0, place, idx + 3);           /* two-row images: negative stride, so row 0 is the one that ends the storage */
+    gimg_t map = make_guarded(afm[d[3]], W, H, d[5] ? 2 : 0, place, idx + 7);
+    gimg_t b = make_guarded(role == 2 ? fm[(d[2] + d[3]) & 3] : PIXMAN_a8r8g8b8, W, H, 0, place, 17);
+    if (role < 2) pixman_image_set_alpha_map(a.img, map.img, 0, 0);
+    pixman_color_t col = { 0xffff, 0x8000, 0x4000, 0xc000 };
+    pixman_image_t *solid = pixman_image_create_solid_fill(&col);
+    static const int LC[2] = { PH_CFG_DEFAULT, PH_CFG_GENERAL };
+    static const pixman_op_t ops[5] = { PIXMAN_OP_SRC, PIXMAN_OP_OVER, PIXMAN_OP_ADD, PIXMAN_OP_IN_REVERSE, PIXMAN_OP_DISJOINT_OVER };
+    uint64_t n = 0;
+    for (int ci = 0; ci < 2; ci++) {
+        ph_set_cfg(LC[ci]);
+        for (int o = 0; o < 5; o++) for (int part = 0; part < 2; part++) {
+            int x0 = part ? 1 : 0, w = part ? W - 1 : W;                              /* the whole row, and the row without its first pixel (ends at the same place) */
+            if (role == 0) pixman_image_composite32(ops[o], b.img, NULL, a.img, x0, 0, 0, 0, x0, 0, w, H);
+            else if (role == 1 || role == 2) pixman_image_composite32(ops[o], a.img, NULL, b.img, x0, 0, 0, 0, x0, 0, w, H);
+            else pixman_image_composite32(ops[o], solid, a.img, b.img, 0, 0, x0, 0, x0, 0, w, H);
+            n++;
+        }
+    }
+    vf_count_libcalls(n);
+    uint64_t h = vf_mix(vf_hash64(b.g.lo, b.g.size, 1), vf_mix(vf_hash64(a.g.lo, a.g.size, 3), vf_hash64(map.g.lo, map.g.size, 2)));
+    pixman_image_unref(solid); free_guarded(&a); free_guarded(&b); free_guarded(&map);
+    vf_count_eval(1); vf_count_nontrivial(1);
+    if (!vf_in_confirm) vf_outcome(h);
+}
+
 /* ---------------- same-shape copies between views of larger buffers ----------------
  * Source and destination have the same format, width, height and a stride LARGER than a row, and each is a view whose last row
  * ends exactly at a PROT_NONE page (the bytes between rows belong to a parent image, the bytes after the last row do not exist).
@@ -619,6 +659,7 @@ int main(int argc, char **argv)
     vf_space_run("rows-that-fill-their-words-exactly", (uint64_t)2 * 4 * 6 * 3 * 2 * 3 * 5, full_row_case, NULL);
     vf_space_run("rotations-covering-the-source-tightly", (uint64_t)2 * 6 * 6 * 6 * 4 * 4 * 2, tight_rot_case, NULL);
     vf_space_run("alpha-maps-of-other-sizes", (uint64_t)2 * 4 * 4 * 3 * 4 * 4 * 6 * 6, amap_case, NULL);
+    vf_space_run("rows-wider-than-the-stack-scanline-buffers", (uint64_t)10 * 4 * 4 * 3 * 2 * 2, wide_row_case, NULL);
     vf_space_run("same-shape-copies-between-views", (uint64_t)6 * 4 * 3 * NCFG_LIST * 2, copy_case, NULL);
     vf_space_run("glyph-positions", (uint64_t)14 * 14 * 3 * 2 * 3, glyph_case, NULL);
     vf_space_run("create-bits-sizes", 9 * 9 * 6, create_case, NULL);
